@@ -79,8 +79,8 @@ def c12_runs(tier):
         runs.append(batch('i8', 'sz6', 0, ['s', 'a', 'c3'], per=4000))
         runs.append(batch('u8', 'sz6', 1, ['s', 'a', 'c3'], mts=(0, 1), per=2000))
     else:
-        runs.append(batch('i8', 'full8', 1, CORE, budget=400))
-        runs.append(batch('u8', 'full8', 1, ['s', 'a'], budget=300))
+        runs.append(batch('i8', 'full8', 1, CORE, per=400, budget=500))
+        runs.append(batch('u8', 'full8', 1, ['s', 'a'], per=400, budget=300))
         runs.append(batch('i8', 'sz8', 2, CORE, budget=200))
         runs.append(batch('u8', 'sz8', 2, CORE, budget=200))
         runs.append(batch('i8', 'sz2', 1, CORE, mts=(2, HUGE), mis=(1, 4), gs=(1, 3), budget=200))
@@ -105,7 +105,9 @@ def c12_runs(tier):
     # sizes at the limit of the size type: separate runs, so that their verdict does not hide the others
     for t in ('i64', 'u64'):
         runs.append(batch(t, 'huge', 1, ['s', 'a'], waits=(0,), per=40, budget=40))
-        runs.append(batch(t, 'huge', 1, ['a'] if q else ['s', 'a'], waits=(1,), per=40, budget=40))
+        runs.append(batch(t, 'huge', 1, ['a'], waits=(1,), per=40, budget=40))
+        if not q:
+            runs.append(batch(t, 'huge', 1, ['s'], waits=(1,), per=40, budget=40))
     # ---- (B) schedules
     M4 = ['s', 'a', 'c1', 'c3']
     runs += ex(q, 'pf_one', 1, M4, 1, type='i32', size=[3, 5, 8], budget=200)
@@ -118,7 +120,9 @@ def c12_runs(tier):
     runs.append(one('pf_one', 0, type='i32', n=2, size=[5] if q else [5, 8], mode=['s', 'a'], wait=[1, 0], yield_=1, settle=0, cts=1, budget=150))
     # the 64-bit ranges ending at the type's maximum (the stripe cursor has the index type's own width there)
     for t in ('i64', 'u64'):
-        runs += ex(q, 'pf_one', 1 if q else 2, ['a', 's', 'c3'], 1, waits=(1,) if q else (1, 0), type=t, at='max', off=[0, 1], size=[3, 4, 5, 8], budget=200 if q else 600)
+        runs += ex(q, 'pf_one', 1, ['a', 's', 'c3'], 1, waits=(1,) if q else (1, 0), type=t, at='max', off=[0, 1], size=[3, 4, 5, 8], budget=200)
+        if not q:
+            runs += ex(q, 'pf_one', 2, ['a', 's'], 1, type=t, at='max', size=[4, 5], budget=400)
         runs += ex(q, 'pf_one', 1, ['a'], 2, waits=(1,), type=t, at='max', size=[4, 5], budget=200)
     # sanitizer legs
     return runs
